@@ -366,7 +366,9 @@ def c01_direct(scripts, cache_vals, cfg):
         if 'count1' in a and b['count0'] != a['count1']:
             out.append('script %d starts with call count %s, but script %d ended with %s: the call budget spent so far '
                        'is not carried over' % (k, b['count0'], k - 1, a['count1']))
-        if b['defs'] is not a['defs'] and b['defs'] != a['defs']:
+        # (compared key by key on the tape objects' identity and bytes: a definition may call itself, so == on Tape objects may not end)
+        if b['defs'] is not a['defs'] and (set(b['defs']) != set(a['defs']) or
+                                           any(b['defs'][h_] is not a['defs'][h_] and b['defs'][h_].data != a['defs'][h_].data for h_ in a['defs'])):
             out.append('script %d does not see the definitions of script %d' % (k, k - 1))
         if b['limit'] != a['limit']:
             out.append('script %d runs under callstack limit %s, script %d under %s' % (k, b['limit'], k - 1, a['limit']))
@@ -676,6 +678,14 @@ def c09_task(task):
                         stats['direct-fail'] += 1
                         if len(viol) < 8:
                             viol.append(dict(what='OP_EVAL is disallowed but code ran through it inside %s' % ('/'.join(combo) or 'top'), case=case))
+                # (f) a registered contract stays reachable: wherever the probe runs, OP_INVOKE reaches contract c1 (whatever kind of
+                # object the embedder registered under that id)
+                if pname == 'invoke(flag0)' and not ('disallow_OP_EVAL' in cfg.flags and evalish):
+                    if not any(e.startswith('v6331:') for e in log_f.split(',')):
+                        stats['direct-fail'] += 1
+                        if len(viol) < 8:
+                            viol.append(dict(what='contract c1 is registered (%s object) but OP_INVOKE did not reach it inside %s: %s'
+                                             % (type(cfg.contract_objs(tsh.Log())[b'c1']).__name__, '/'.join(combo) or 'top', f[0]), case=case))
                 # (d) documented flag instructions (known finding D7)
                 if pname == 'set_flag' and ('b' + b'mA'.hex()) not in keys and not combo:
                     viol.append(dict(what='OP_SET_FLAG x02 raised instead of setting integer flag 2', case=case, finding='D7'))
@@ -777,6 +787,42 @@ def c02_task(task):
                     viol.append(dict(what='a plugin passed to ONE run_script / run_auth_scripts call is still registered afterwards: module plugin table %r -> %r'
                                      % ({k_: len(v_) for k_, v_ in plug0.items()}, {k_: len(v_) for k_, v_ in now_.items()}),
                                      case=dict(script=(op('GET_MESSAGE') + b'\x00').hex(), cache='s7369676669656c6431=b616263', note='run with plugins={signature_extensions: [ext]}, then look at functions._plugins')))
+        if it % 10 == 5:
+            # a signature extension that REWRITES the covered fields (not idempotent) in force, passed to the call or registered VM-wide:
+            # GET_MESSAGE, SIGN and CHECK_SIG (each in a run of its own, on a fresh copy of the fields) must still cover the same bytes
+            vmw_ = rng.random() < 0.5
+            fl_ = rng.choice([0, 1, 0x82, rng.getrandbits(8) & 0x7f])
+            ce_ = {'sigfield%d' % i_: bytes(rng.getrandbits(8) for _ in range(rng.choice([0, 2, 5]))) for i_ in rng.sample(range(1, 9), 3)}
+            ke_ = rng.randrange(len(SEEDS))
+            def run_ext(script_):
+                if vmw_:
+                    tsh.F.add_signature_extension(_ext)
+                    try:
+                        return tsh.F.run_script(script_, dict(ce_))[1].list()
+                    finally:
+                        tsh.F.remove_signature_extension(_ext)
+                return tsh.F.run_script(script_, dict(ce_), plugins={'signature_extensions': [_ext]})[1].list()
+            stats['rewriting-extension'] += 1
+            try:
+                m_ = run_ext(op('GET_MESSAGE') + bytes([fl_]))[-1]
+                s_ = run_ext(push(SEEDS[ke_]) + op('SIGN') + bytes([fl_]))[-1]
+                ok1_ = nacl_valid(PUBS[ke_], m_, s_[:64])
+                ext_sig_ = tsh.SigningKey(SEEDS[ke_]).sign(m_).signature + (bytes([fl_]) if fl_ else b'')
+                ok2_ = run_ext(push(ext_sig_) + push(PUBS[ke_]) + op('CHECK_SIG') + bytes([fl_]))[-1] == b'\xff'
+                ok3_ = run_ext(push(s_) + push(PUBS[ke_]) + op('CHECK_SIG') + bytes([fl_]))[-1] == b'\xff'
+                want_m_ = msg_spec(fl_, {k_: b'EXT:' + v_ for k_, v_ in ce_.items()})
+                prob_ = None
+                if m_ != want_m_: prob_ = 'GET_MESSAGE gave %s, the fields as rewritten once by the extension give %s' % (m_.hex(), want_m_.hex())
+                elif not ok1_: prob_ = 'the signature made by SIGN does not cover the bytes GET_MESSAGE gives'
+                elif not ok2_: prob_ = 'CHECK_SIG rejects a signature over the bytes GET_MESSAGE gives'
+                elif not ok3_: prob_ = 'CHECK_SIG rejects the signature made by SIGN'
+            except BaseException as e_:
+                prob_ = 'raised %s: %s' % (type(e_).__name__, str(e_)[:100])
+            if prob_:
+                stats['direct-fail'] += 1
+                if len(viol) < 8:
+                    viol.append(dict(what='with a field-rewriting signature extension %s: %s' % ('registered VM-wide' if vmw_ else 'passed to the call', prob_),
+                                     case=dict(flag=fl_, cache=tsh.cache_str(ce_, False), key=PUBS[ke_].hex(), extension="cache[k] = b'EXT:' + cache[k] for every sigfield")))
         present = rng.getrandbits(8) if rng.random() < 0.7 else rng.choice([0, 1, 0xff, 3])
         cache = {'sigfield%d' % i: bytes(rng.getrandbits(8) for _ in range(rng.choice([0, 1, 3, 9])))
                  for i in range(1, 9) if (present >> (i - 1)) & 1}
